@@ -7,6 +7,8 @@ tie        : correspondence — harness/c12_playbuffer.c runs the real xmp_play_
 search     : the harness's direct oracle (B's bytes == concatenation of A's xmp_play_frame buffers)
 """
 import os
+import random
+import struct
 import vlib
 
 LEVEL = "proof"
@@ -56,6 +58,43 @@ def tempo_modules(ck, dirname, count):
                         b += bytes(4)
         b += bytes((i * 9) & 0xff for i in range(64))
         path = os.path.join(dirname, "tempo%02d.mod" % k)
+        open(path, "wb").write(bytes(b))
+        out.append(path)
+    return out
+
+
+def subsong_modules(ck, dirname, count):
+    """Protracker modules with two or three sequences (sub-songs): order 0 jumps back to itself, the following
+    orders are reachable only through position control, so that xmp_set_position crosses between sequences."""
+    rng = random.Random(ck.seed * 2749 + 7)
+    os.makedirs(dirname, exist_ok=True)
+    out = []
+    for k in range(count):
+        b = bytearray(b"subsongs".ljust(20, b"\0"))
+        b += b"s".ljust(22, b"\0") + struct.pack(">HBBHH", 32, 0, 64, 0, 32)
+        for i in range(30):
+            b += bytes(22) + struct.pack(">HBBHH", 0, 0, 0, 0, 1)
+        npat = rng.randint(3, 5)
+        b += bytes([npat, 0x7f]) + bytes(range(npat)).ljust(128, b"\0") + b"M.K."
+        # pattern p ends with a jump: 0 -> 0, the last of each later group back to the group's first order
+        split = rng.randint(2, npat - 1)          # orders 1..split-1 and split..npat-1 are further sequences
+        for p in range(npat):
+            target = 0 if p == 0 else (1 if p < split else split)
+            last = p == 0 or p == split - 1 or p == npat - 1
+            endrow = rng.choice([15, 31, 63])
+            for r in range(64):
+                for c in range(4):
+                    if c == 0 and r % 8 == 0:
+                        b += bytes([0x01, rng.choice([0xac, 0x1d, 0x40]), 0x10 | (0x0f if r == 0 and p == 0 else 0),
+                                    rng.choice([3, 4, 6]) if r == 0 and p == 0 else 0])
+                    elif c == 3 and r == endrow and last:
+                        b += bytes([0, 0, 0x0b, target])
+                    elif c == 3 and r == endrow:
+                        b += bytes([0, 0, 0x0d, 0])
+                    else:
+                        b += bytes(4)
+        b += bytes((i * 9) & 0xff for i in range(64))
+        path = os.path.join(dirname, "subsong%02d.mod" % k)
         open(path, "wb").write(bytes(b))
         out.append(path)
     return out
@@ -127,6 +166,9 @@ def run(ck):
     # so that about a quarter of the cases use them)
     tmods = tempo_modules(ck, os.path.join(vlib.OUT, "c12-tempo-%d" % ck.seed), 4 if quick else 12)
     mods = mods + tmods * max(1, len(mods) // (3 * len(tmods)))
+    # position control must be able to cross between sequences (sub-songs): generated multi-sequence modules
+    smods = subsong_modules(ck, os.path.join(vlib.OUT, "c12-subsong-%d" % ck.seed), 3 if quick else 8)
+    mods = mods + smods * max(1, len(mods) // (5 * len(smods)))
     shards = [(exe, ck.seed * 7919 + i, per, maxhex, mods) for i in range(nshards)]
     results = vlib.pmap(run_shard, shards)
     stats = {"calls": 0, "ret_-1": 0, "zero_fill_end": 0, "resets": 0, "stops": 0, "boundary_crossing_calls": 0,
